@@ -139,6 +139,10 @@ type c11Resp struct {
 	Distances []uint16
 	AskerIP   string // "loopback", "lan", "public"
 	EndToEnd  bool   // additionally send the request over the simulated network and measure the datagram
+	// "" : the request is handed to the FINDNODES handler with its source address. Otherwise it goes through the talk
+	// handler as a request of a node whose own record names an address of this class ("loopback", "lan", "public"),
+	// while the packet still comes from AskerIP: the relay rule speaks about where the answer goes, the packet's source.
+	RecordIP string
 }
 
 func genDistances(t *rapid.T) []uint16 {
@@ -169,7 +173,8 @@ func genDistances(t *rapid.T) []uint16 {
 func genC11Resp(t *rapid.T) c11Resp {
 	return c11Resp{Table: genTableNodes(t, rapid.SampledFrom([]int{8, 40, 120, 272}).Draw(t, "maxN")), Distances: genDistances(t),
 		AskerIP:  rapid.SampledFrom([]string{"loopback", "lan", "public"}).Draw(t, "asker"),
-		EndToEnd: rapid.IntRange(0, 5).Draw(t, "e2e") == 0}
+		EndToEnd: rapid.IntRange(0, 5).Draw(t, "e2e") == 0,
+		RecordIP: rapid.SampledFrom([]string{"", "", "loopback", "lan", "public"}).Draw(t, "recordIP")}
 }
 
 func askerIP(class string) net.IP {
@@ -351,9 +356,26 @@ func runC11Resp(p c11Resp, c *stats.Case) error {
 	defer func() { checkedAtCurrentEndpoint = nil }()
 	c.Class("asker:" + p.AskerIP)
 	ip := askerIP(p.AskerIP)
-	reply, err := b.P.VerifHandleFindNodes(&net.UDPAddr{IP: ip, Port: 4444}, encodeFindNodes(p.Distances))
-	if err != nil {
-		return fmt.Errorf("handleFindNodes returned an error: %v", err)
+	var reply []byte
+	if p.RecordIP == "" {
+		reply, err = b.P.VerifHandleFindNodes(&net.UDPAddr{IP: ip, Port: 4444}, encodeFindNodes(p.Distances))
+		if err != nil {
+			return fmt.Errorf("handleFindNodes returned an error: %v", err)
+		}
+	} else {
+		asker := gen.SignedNode(gen.NodeOpts{KeyIdx: 43, Seq: 1, IP: askerIP(p.RecordIP), UDP: 4444, Versions: []byte{0, 1}})
+		from := &net.UDPAddr{IP: ip, Port: 4444}
+		_ = b.P.VerifHandleTalkRequest(asker, from, nil) // a first contact: the asker is known to the table from here on
+		before = b.P.VerifTable().VerifSnapshot()
+		body, _ := encodeFindNodes(p.Distances).MarshalSSZ()
+		reply = b.P.VerifHandleTalkRequest(asker, from, append([]byte{portalwire.FINDNODES}, body...))
+		if len(reply) == 0 {
+			return fmt.Errorf("the talk handler gave no answer to a well-formed FINDNODES")
+		}
+		delete(checkedAtCurrentEndpoint, asker.ID())
+		if p.RecordIP != p.AskerIP {
+			c.NT("asker-record-names-another-address-class-than-the-packet-source")
+		}
 	}
 	after := b.P.VerifTable().VerifSnapshot()
 	if !sameEntries(before, after) {
